@@ -534,3 +534,60 @@ func C13SameIdTwoSignals() {
 	}
 	sym.Reach("same-id-done")
 }
+
+// C13TwoObjects: two objects of one service expose the same signal id; one client connection holds a
+// proxy to each and subscribes through both: each subscriber gets its own object's events exactly once
+// (and nothing of the other's), and one of them leaving does not disturb the other.
+func C13TwoObjects() {
+	auth := &zzAuth{user: "u", token: "t"}
+	l := newZZListener()
+	srv, _ := StandAloneServer(l, auth, PrivateNamespace())
+	meta := object.MetaObject{Description: "zz", Signals: map[uint32]object.MetaSignal{200: {Uid: 200, Name: "sig", Signature: "(i)"}}}
+	mk := func() *zzObj {
+		o := &zzObj{}
+		o.front = NewBasicObject(o, meta, func(string, []byte) error { return nil })
+		return o
+	}
+	o1, o2 := mk(), mk()
+	service, err := srv.NewService("emitter", o1.front)
+	sym.Assert(err == nil, "two-objects/service")
+	id2, err := service.Add(o2.front)
+	sym.Assert(err == nil, "two-objects/second-object")
+	sym.Assume(id2 == 5) // the random id drawn for the second object: fixed, so that the client's state keys are concrete text
+	id2 = 5
+	cs, ss := zzPipe()
+	l.conns <- ss
+	sym.Quiesce()
+	ch := NewChannel(net.NewEndPoint(cs), ClientCap("u", "t"))
+	sym.Assert(ch.Authenticate() == nil, "client-authenticated")
+	client := NewClient(ch)
+	p1 := NewProxy(client, object.FullMetaObject(meta), service.ServiceID(), 1)
+	p2 := NewProxy(client, object.FullMetaObject(meta), service.ServiceID(), id2)
+	cancel1, ev1, err := p1.SubscribeID(200)
+	sym.Assert(err == nil, "two-objects/subscribe-1")
+	_, ev2, err := p2.SubscribeID(200)
+	sym.Assert(err == nil, "two-objects/subscribe-2")
+	d1, d2 := sym.Bytes("data-1", 1), sym.Bytes("data-2", 1)
+	sym.Assert(o1.front.UpdateSignal(200, d1) == nil, "two-objects/emit-1")
+	sym.Assert(o2.front.UpdateSignal(200, d2) == nil, "two-objects/emit-2")
+	sym.Quiesce()
+	g1, _ := zzDrainNow(ev1)
+	g2, _ := zzDrainNow(ev2)
+	sym.Assert(len(g1) == 1 && len(g2) == 1, "two-objects/each-subscriber-its-own-event")
+	if len(g1) == 1 && len(g2) == 1 {
+		sym.Assert(sym.And(sym.EqBytes(g1[0], d1), sym.EqBytes(g2[0], d2)), "two-objects/payloads")
+	}
+	// the first subscriber leaves: the second still gets its object's events
+	cancel1()
+	sym.Quiesce()
+	d3 := sym.Bytes("data-3", 1)
+	sym.Assert(o2.front.UpdateSignal(200, d3) == nil, "two-objects/emit-3")
+	sym.Assert(o1.front.UpdateSignal(200, d1) == nil, "two-objects/emit-4")
+	sym.Quiesce()
+	g2, closed2 := zzDrainNow(ev2)
+	sym.Assert(!closed2 && len(g2) == 1, "two-objects/other-subscriber-disturbed")
+	if len(g2) == 1 {
+		sym.Assert(sym.EqBytes(g2[0], d3), "two-objects/payload-after-leave")
+	}
+	sym.Reach("two-objects-done")
+}
